@@ -3,7 +3,8 @@
    s is reachable from `init K ext roots` by any sequence of labels (any interleaving, any fault
    choice, cancellation of the caller's context at any point). *)
 From Coq Require Import List Arith Bool.
-From Oras Require Import Model.CopyImpl Proofs.CopyImpl.
+From Oras Require Import Model.CopyImpl Proofs.CopyImplBase Proofs.CopyImplInv Proofs.CopyImplInv2 Proofs.CopyImplLive
+  Proofs.CopyImplDeadlock.
 Import ListNotations.
 
 Theorem C04_permits_conserved : forall succ K ext roots s, Reachable succ K ext roots s ->
@@ -32,3 +33,16 @@ Theorem C04_inflight_bounded : forall succ K ext roots s, Reachable succ K ext r
   inflight s <= holders s /\ inflight s <= K.
 Proof. exact inflight_bounded. Qed.
 Print Assumptions C04_inflight_bounded.
+
+(* Deadlock freedom.  succ is strictly rank-decreasing (content addressing: node ids are assigned
+   bottom-up, rank = id).  In every reachable state in which the top-level syncutil.Go has not returned,
+   some step of the protocol itself is enabled - a label that is not a fault / cancellation choice
+   (progress_label).  The proof: a permit holder is never blocked (region.End() precedes dispatch and
+   waiting); with a free permit, waits go strictly down in rank (done channels) or to a nested frame;
+   after a failure some cancelled frame has not returned and everything below a cancelled frame can move. *)
+Theorem C02_no_deadlock : forall succ K ext roots,
+  (forall n m, In m (succ n) -> m < n) ->
+  forall s, 1 <= K -> Reachable succ K ext roots s -> is_final s = false ->
+  exists l s', progress_label l = true /\ step succ s l = Some s' /\ In l (enabled succ s).
+Proof. exact no_deadlock. Qed.
+Print Assumptions C02_no_deadlock.
